@@ -5,6 +5,10 @@ type nat =
 | O
 | S of nat
 
+type ('a, 'b) sum =
+| Inl of 'a
+| Inr of 'b
+
 val fst : ('a1 * 'a2) -> 'a1
 
 val snd : ('a1 * 'a2) -> 'a2
@@ -449,10 +453,19 @@ type stream = { st_id : n; st_sub : n; st_subname : name; st_max : n;
                 st_pending : lease list list; st_term : n option;
                 st_reqopen : bool }
 
+type consumer =
+| CStream of n
+| CPull of n * n * n
+
+type cons = { c_streams : stream list; c_waiters : (n * consumer) list;
+              c_done : (n * (n, lease list) sum) list }
+
 type server = { sv_now : n; sv_topics : topic list; sv_tnext : n;
                 sv_subs : sub0 list; sv_snext : n;
-                sv_reg : (name * str) list; sv_ptnext : n;
-                sv_streams : stream list }
+                sv_reg : (name * str) list; sv_ptnext : n; sv_cons : 
+                cons }
+
+val sv_streams : server -> stream list
 
 val init_server : server
 
@@ -471,6 +484,10 @@ val del_sub : n -> sub0 list -> sub0 list
 val del_topic : n -> topic list -> topic list
 
 val with_subs : server -> sub0 list -> server
+
+val with_cons : server -> cons -> server
+
+val set_streams : cons -> stream list -> cons
 
 val with_streams : server -> stream list -> server
 
@@ -499,6 +516,8 @@ type req =
 | RStreamSend of n * str * z * z * str list * str list * z list
 | RStreamClose of n
 | RStreamRead of n
+| RPullBg of n * str * z
+| RJoin of n
 
 type subres = { r_name : str; r_topic : str; r_ackdl : n; r_push : str option }
 
@@ -514,22 +533,32 @@ type resp =
 | PStats of n * n * str
 | PReg of (str * str) list
 | PStream of lease list list * n option
+| PPending
+| PJoined of (n, lease list) sum
 | PNone
 
 val timer_fired : n -> sub0 -> bool
 
-val drain : nat -> n -> n -> sub0 -> sub0 * lease list list
-
-val first_open_stream : n -> stream list -> stream option
+val first_waiter :
+  n -> (n * consumer) list -> (consumer * (n * consumer) list) option
 
 val stream_push : n -> lease list list -> stream list -> stream list
 
 val stream_terminate : (stream -> bool) -> n -> stream list -> stream list
 
-val settle_sub : n -> bool -> stream list -> sub0 -> sub0 * stream list
+val find_stream : n -> stream list -> stream option
 
-val settle_subs :
-  n -> (n -> bool) -> sub0 list -> stream list -> sub0 list * stream list
+val serve : nat -> n -> sub0 -> cons -> sub0 * cons
+
+val has_waiter : n -> cons -> bool
+
+val actor_runs : n -> bool -> cons -> sub0 -> bool
+
+val settle_sub : n -> bool -> cons -> sub0 -> sub0 * cons
+
+val settle_subs : n -> (n -> bool) -> sub0 list -> cons -> sub0 list * cons
+
+val expire_pulls : n -> cons -> cons
 
 val settle : (n -> bool) -> server -> server
 
@@ -568,6 +597,16 @@ val set_topic_subs : topic -> (name * n) list -> topic
 val set_topic_next : topic -> n -> topic
 
 val attached : name -> (name * n) list -> bool
+
+val release_consumers : n -> cons -> cons
+
+val unpark_stream : n -> cons -> cons
+
+val park : n -> consumer -> cons -> cons
+
+val pull_limit_ns : n
+
+val rotate_waiter : cons -> n -> cons
 
 val handle : server -> req -> (server * resp) * (n -> bool)
 
@@ -633,7 +672,10 @@ val resolve_tok : str list -> str -> str
 
 val resp_acks : resp -> str list
 
-val run_lines : server -> n list -> str list -> str list list -> str list
+val is_blocking_pull : str list -> (str * str) option
+
+val run_lines :
+  server -> n list -> str list -> (n * str) list -> str list list -> str list
 
 val tokens : str -> str list
 
